@@ -80,18 +80,20 @@ NegZero(e) == {<<e.ti, "NegZero", l>> : l \in {l \in 1..NL : H.lpar[l] > 0 /\ ~H
 \* ---------------------------------------------------------------------------------------------- C03
 \* documented unit conversion in multiplied-out form (no division): e.ca[l] is the per-step fraction (or amount)
 ParLinks(p) == {l \in 1..NL : H.lpar[l] = p /\ ~H.lflush[l]}
+\* (a source population of a number parameter below 2^-30 people - under the property's absolute tolerance of 1e-9; observations are
+\* quantised to 2^-60, so a residue like 1e-23 and the amount requested from it are both recorded as 0 although their ratio is an ordinary
+\* fraction - is not judged here: the flow it produces is still judged by ResolveRel / NoOverdraw / NonNeg)
+TinyPop == [s |-> 1, m |-> <<0, 0, 1>>]
+NumPop(e, p) == LET ls == ParLinks(p) IN BSum(ls, [k \in ls |-> Tot(e.st[H.lsrc[k]])])
 ConvOK(e, l) == LET p == H.lpar[l]  v == e.pv[p]  u == H.units[p]  T == H.tscale[p]  ca == e.ca[l] IN
-   IF v.s <= 0 THEN ca.s = 0
+   IF u = "number" /\ H.kind[H.lsrc[l]] # "source" /\ SLt(NumPop(e, p), TinyPop) THEN TRUE
+   ELSE IF v.s <= 0 THEN ca.s = 0
    ELSE IF u \in {"probability","rate"} THEN RelClose(SMul(ca, T), SMul(v, H.dt), K1e8, PSlack(SAdd(ca, v), SAdd(T, H.dt)))
    ELSE IF u = "duration" THEN RelClose(SRescale(SMul(SRescale(SMul(ca, v)), T)), H.dt, K1e8, <<64>>)
    ELSE IF u = "number" THEN
         IF H.kind[H.lsrc[l]] = "source" THEN RelClose(SMul(ca, T), SMul(v, H.dt), K1e8, PSlack(SAdd(ca, v), SAdd(T, H.dt)))
-        ELSE LET ls == ParLinks(p)  pop == BSum(ls, [k \in ls |-> Tot(e.st[H.lsrc[k]])]) IN
-             \* a source population below 2^-30 people (< the property's absolute tolerance of 1e-9; observations are quantised to 2^-60, so a
-             \* relative check at 1e-8 is meaningless there and a residue like 1e-31 is recorded as 0) is not judged here: the flow it
-             \* produces is still judged by ResolveRel / NoOverdraw / NonNeg
-             IF pop.s = 0 \/ SLt(pop, [s |-> 1, m |-> <<0, 0, 1>>]) THEN TRUE
-             ELSE RelClose(SMul(SRescale(SMul(ca, pop)), T), SMul(v, H.dt), K1e8, PSlack(SAdd(SAdd(ca, pop), v), SAdd(T, H.dt)))
+        ELSE LET pop == NumPop(e, p) IN
+             RelClose(SMul(SRescale(SMul(ca, pop)), T), SMul(v, H.dt), K1e8, PSlack(SAdd(SAdd(ca, pop), v), SAdd(T, H.dt)))
    ELSE TRUE
 ConvertRel(e) == {<<e.ti, "ConvertRel", l>> : l \in {l \in 1..NL : H.lpar[l] > 0 /\ ~H.lflush[l] /\ ~IsJ(H.lsrc[l]) /\ ~ConvOK(e, l)}}
 \* flow * max(1, sum of fractions) = fraction * stock   (ordinary compartments; sources emit the amount itself)
